@@ -186,6 +186,7 @@ func specGo(cs []genCheck, level string, v api.Version) []int {
 }
 
 func runC04(c *Ctx) {
+	apiHelpers(c)
 	n := 3000
 	if c.Thorough {
 		n = 60000
@@ -475,7 +476,66 @@ func genDefaultPolicy(r *Rng) api.Policy {
 
 func labelsJSON(l map[string]string) [][]string { return annPairs(l, false) }
 
+// apiHelpers: the exported helpers of package api that the registry's clamp, the dry-run skip rule and warn defaulting rest on —
+// Version.Older, CompareLevels, Policy.FullyPrivileged — on every pair from a pool of versions (latest, the zero value, majors 0 / 1 / 2,
+// neighbouring and far minors) and every pair of levels, against the model's definitions; and Older's own contract: latest is
+// older than nothing and everything else is older than latest
+func apiHelpers(c *Ctx) {
+	vers := []api.Version{api.LatestVersion(), {}, api.MajorMinorVersion(0, 5), api.MajorMinorVersion(1, 0), api.MajorMinorVersion(1, 1), api.MajorMinorVersion(1, 24), api.MajorMinorVersion(1, 25),
+		api.MajorMinorVersion(1, 32), api.MajorMinorVersion(1, 33), api.MajorMinorVersion(1, 1000000), api.MajorMinorVersion(2, 0), api.MajorMinorVersion(2, 40)}
+	levels := []api.Level{api.LevelPrivileged, api.LevelBaseline, api.LevelRestricted}
+	vj := func(v api.Version) any {
+		if v.Latest() {
+			return "latest"
+		}
+		return []int{v.Major(), v.Minor()}
+	}
+	var ops []J
+	type obs struct {
+		older, fully bool
+		cmp          string
+		in           J
+	}
+	var all []obs
+	for _, a := range vers {
+		for _, b := range vers {
+			for _, la := range levels {
+				for _, lb := range levels {
+					a := a
+					cmp := "eq"
+					if x := api.CompareLevels(la, lb); x < 0 {
+						cmp = "lt"
+					} else if x > 0 {
+						cmp = "gt"
+					}
+					p := api.Policy{Enforce: api.LevelVersion{Level: la, Version: a}, Audit: api.LevelVersion{Level: lb, Version: b}, Warn: api.LevelVersion{Level: la, Version: b}}
+					o := obs{older: a.Older(b), fully: p.FullyPrivileged(), cmp: cmp, in: J{"a": a.String(), "b": b.String(), "levelA": la, "levelB": lb}}
+					all = append(all, o)
+					ops = append(ops, J{"op": "apiHelpers", "a": vj(a), "b": vj(b), "la": string(la), "lb": string(lb)})
+					c.Eval(1)
+					if a.Latest() && o.older {
+						c.Violate(Finding{Desc: fmt.Sprintf("Version.Older: latest is reported older than %s", b.String()), Key: "older-latest", Input: o.in})
+					}
+					if !a.Latest() && b.Latest() && !o.older {
+						c.Violate(Finding{Desc: fmt.Sprintf("Version.Older: %s is not reported older than latest", a.String()), Key: "older-latest", Input: o.in})
+					}
+				}
+			}
+		}
+	}
+	c.Tag("apiHelpers")
+	for i, o := range c.Lean(ops) {
+		lo, _ := o["older"].(bool)
+		lf, _ := o["fullyPrivileged"].(bool)
+		lc, _ := o["compare"].(string)
+		if lo != all[i].older || lf != all[i].fully || lc != all[i].cmp {
+			c.Disagree(Finding{Desc: fmt.Sprintf("api helpers differ from the model: Older=%v/%v CompareLevels=%s/%s FullyPrivileged=%v/%v (code/model)", all[i].older, lo, all[i].cmp, lc, all[i].fully, lf), Input: all[i].in})
+		}
+	}
+}
+
 func runC05(c *Ctx) {
+	apiHelpers(c)
 	nStr, nMaps := 6000, 6000
 	if c.Thorough {
 		nStr, nMaps = 100000, 100000
